@@ -245,7 +245,10 @@ func checkSeq(scen string, in In) *mc.Violation {
 		}
 		return mc.V(scen, f.clause, in, f.want, f.got)
 	}
-	for _, m := range in.Members {
+	for i, m := range in.Members {
+		if m.NoPad && i == len(in.Members)-1 {
+			m.NoPad = false // the LAST member may end the file without its padding byte
+		}
 		if !wellFormed(m) {
 			return nil // the property speaks about well-formed archives only
 		}
@@ -267,7 +270,7 @@ func checkSeq(scen string, in In) *mc.Violation {
 }
 
 func wellFormed(m gen.ArmMember) bool {
-	if m.Magic != "" || m.NoPad || len(m.Name) > 16 {
+	if m.Magic != "" || m.NoPad || len(m.Name) > 16 || len(m.Pad) > 1 {
 		return false
 	}
 	num := func(s string, w int) bool {
